@@ -359,6 +359,8 @@ def run_program(c):
     elif origin == "latin1":
         path = os.path.join(d, "latin.py")
         src = "# -*- coding: latin-1 -*-\n" + src.replace("✓", "").replace("λ", "")
+        # what latin-1 cannot say (U+2028 in a string, ...) is written as "?": such characters only occur in strings and comments
+        src = "".join(ch if ord(ch) < 256 else "?" for ch in src)
         site_line += 1
         with open(path, "wb") as f:
             f.write(src.encode("latin-1"))
@@ -771,7 +773,9 @@ def oracle(c, o):
         r = check_snippet(block, fl["text"], fl["tok"], last["lineno"], "failing-frame")
         if r:
             return r
-    elif fl["text"] and 1 <= last["lineno"] <= len(_src_lines(fl["text"])):
+    elif fl["text"] and isinstance(fl["tok"], list) and 1 <= last["lineno"] <= len(_src_lines(fl["text"])):
+        # a file that cannot be read (text None) or that tokenize rejects (edited since it was loaded): the report goes on
+        # without the snippet (fix caca46b) - the tie compares that with the model
         return "snippet-missing"
     # the stack trace: frames under an ignored path only at debug verbosity; the others all listed
     verbose, debug = c["verb"] >= 1, c["verb"] >= 3
